@@ -414,6 +414,8 @@ class Scheduler(Subject):
         else:
             awaited_event = Event(event_type=SET_PLACE, data={"place_uuid": else_uuid})
             self.awaited_events.append(awaited_event)
+            # the loop is left: forget its counter so that it starts at 0 when it is reached again
+            del self.loop_counters[task_context.uuid][loop]
 
             # has to be executed at last
             self.fire_event(awaited_event)
